@@ -129,6 +129,12 @@ func (fsm *FSM) applyRobustMessage(msg *robust.Message, i *ircserver.IRCServer, 
 			defer i.ConfigMu.Unlock()
 			i.Config = newCfg
 			i.Config.Revision = msg.Revision
+			if i != ircServer {
+				// Snapshot() compacts old messages into a temporary server.
+				// An old configuration must not replace the session
+				// expiration which is currently in force.
+				return nil
+			}
 			fsm.sessionExpirationMu.Lock()
 			defer fsm.sessionExpirationMu.Unlock()
 			fsm.sessionExpirationDur = time.Duration(i.Config.SessionExpiration)
